@@ -50,7 +50,7 @@ def gen_case(rng, ctx):
         if origin in ("own", "foreign") and rng.random() < 0.2:
             idref["as_str"] = True          # the id in the other form Id allows: "17" for 17
         kind = rng.choice(["insert", "insert_with_id", "insert_with_id", "bulk", "upsert", "upsert", "replace", "replace",
-                           "replace_last", "replace_last", "delete", "delete", "update_bucket", "recreate_bucket", "deleted_target"])
+                           "replace_last", "replace_last", "delete", "delete", "update_bucket", "recreate_bucket", "deleted_target", "create_again"])
         op = dict(op=kind, b=a, id=idref, ev=ev())
         if kind == "deleted_target":
             op["sub"] = rng.choice(["insert", "insert", "replace_last", "delete_bucket", "delete_bucket", "update_bucket", "bulk", "delete"])
@@ -283,6 +283,17 @@ def run_case(case, ctx):
                 elif kind == "update_bucket":
                     ds.update_bucket(A, type_id="newtype", client="newclient", hostname="newhost", name="newname",
                                      data={"updated": k})
+                elif kind == "create_again":
+                    # a watcher creates its bucket every time it starts: refused or accepted, and whatever that does to A
+                    # itself, it is an operation addressed to A - like the ones that follow it
+                    had = set(_ids(ds, A))
+                    try:
+                        ds.create_bucket(A, type="t3", client="c3", hostname="h3")
+                    finally:
+                        gone = had - set(_ids(ds, A))
+                        if gone:
+                            deleted.setdefault(A, set()).update(gone)
+                        ctx.count("creates_of_a_bucket_that_exists")
                 elif kind == "recreate_bucket":
                     for i in _ids(ds, A):
                         deleted.setdefault(A, set()).add(i)
